@@ -205,6 +205,13 @@ def numeric(ctx):
         fn = Fn(ctx.repo, REPR, name, "C41")
         fns[name] = fn
         bad, n = None, 0
+        # these helpers are defined on python integers of any size (addresses, 64-bit masks): true division or a float
+        # function in them is exact only below 2**53
+        inexact = sorted({tstr(t)[:60] for ex in fn.exs for f in ex.facts for v in f.__dict__.values() if isinstance(v, tuple) for t in subterms(v)
+                          if isinstance(t, tuple) and ((len(t) >= 2 and t[0] == "op" and t[1] == "/") or (t[:1] == ("call",) and len(t) > 1 and t[1] in (("n", "ceil"), ("n", "floor"), ("n", "log2"), ("n", "float"), ("n", "round"), ("a", ("n", "math"), "ceil"), ("a", ("n", "math"), "floor"), ("a", ("n", "math"), "log2"))))})
+        if inexact:
+            ctx.bad("C41.numeric-exact", fn.site, name, found="floating-point arithmetic: " + "; ".join(inexact[:3]), required="exact integer arithmetic (the result for an integer above 2**53 must not be rounded)")
+            continue
         try:
             for args in ranges():
                 env = {fn.param(i): a for i, a in enumerate(args)}
